@@ -83,12 +83,43 @@ def check_repo_import():
     return repo
 
 
+def in_thread(fn, *args):
+    """Run fn(*args) in a fresh thread and return its result (exceptions are re-raised in the caller).
+
+    Only a cost measure: pyMOTO's Signal/Module constructors call inspect.stack(), whose cost is proportional to the
+    Python stack depth (harness -> multiprocessing -> Hypothesis -> check_case is ~60 frames deep, which made object
+    construction dominate the run time). A fresh thread starts with an empty stack; it is joined before returning, so
+    nothing outlives a case and the verdict does not depend on it."""
+    import threading
+    box = {}
+
+    def run():
+        try:
+            box["r"] = fn(*args)
+        except BaseException as e:   # propagate everything, incl. bugs of the check itself (exit 2)
+            box["e"] = e
+    th = threading.Thread(target=run)
+    th.start()
+    th.join()
+    if "e" in box:
+        raise box["e"]
+    return box["r"]
+
+
 def eval_case(mod, case):
     """Run check_case with the global numpy RNG pinned; returns (labels, violations)."""
     import numpy as np
     np.random.seed(int(case_hash(case), 16) % (2 ** 32))
-    labels, violations = mod.check_case(case)
+    if threading_enabled():
+        labels, violations = in_thread(mod.check_case, case)
+    else:
+        labels, violations = mod.check_case(case)
     return list(labels), list(violations)
+
+
+def threading_enabled():
+    import threading
+    return os.environ.get("VERIF_NO_THREAD") != "1" and threading.current_thread() is threading.main_thread()
 
 
 # ----------------------------------------------------------------------------------------------------------------
